@@ -535,8 +535,10 @@ func terminationOf(i *value.VmInterrupt) bool {
 @*/
 
 /*@ func (self *VM) SpawnSync
-    serves C16, C10
+    serves C16, C10, C15
     ensures @core-started ghost(goroutines) == old(ghost(goroutines)) + 1
+    ensures @joined len(self.Cores.Cores) == 0
+    assumed-ensures @exception-has-interrupt result.Exception != nil ==> result.Exception.Interrupt != nil
     assume-safety
     assumepre DeepCast, Wait, HandleTermination
     requires rlocks(&self.Cores.Lock) == 0 && !wlocked(&self.Cores.Lock)
@@ -569,4 +571,20 @@ func terminationOf(i *value.VmInterrupt) bool {
     ensures @failure interrupt != nil ==> result.Exception != nil && result.Exception.Interrupt == *interrupt && result.Exception.CoreNum == exceptionCore && result.ReturnValue == nil
     ensures @success interrupt == nil ==> result.Exception == nil
     ensures @typed-result interrupt == nil && result.ReturnValue != nil ==> value.VConforms(result.ReturnValue, invocation.FunctionSignature.ReturnType)
+@*/
+
+// ---------------------------------------------------------------------------
+// Construction (C15: the globals of every module are initialised before any
+// entry function runs; C14: no dependence on goroutine timing): when NewVM
+// returns, the init routine has run to its end - no core is left registered.
+// The explicit panic of NewVM for an init routine that ended with an interrupt
+// is reachable (a context cancelled before or during initialisation): see the
+// open finding in /verif/known_findings.json.
+
+/*@ func NewVM
+    serves C15, C14, C10, C02
+    assumepre SpawnSync
+    requires ctx != nil && cancelFunc != nil && *cancelFunc != nil
+    ensures @init-completed len(result.Cores.Cores) == 0
+    ensures @init-core-started ghost(goroutines) == old(ghost(goroutines)) + 1
 @*/
